@@ -1160,11 +1160,32 @@ def rule_id_generator(ctx, facts, rule):
               "every call stores (prefix, counter + c) back with a non-zero constant c (the counter advances on each id)", detail,
               detail or "no Cell::set of the advanced counter", extra="advance")
     cons = [c for c in constructions(facts, "fastrace::collector::id::SpanId", crates=["fastrace"]) if c[0] is gen]
+    host = gen
+    if not cons:
+        # the id assembled after the thread-local access (`try_with(|g| advance(g)).map(|(prefix, counter)| SpanId(..))`): built in
+        # another body of next_id from what the generator closure returns
+        cons = [c for c in constructions(facts, "fastrace::collector::id::SpanId", crates=["fastrace"])
+                if any(c[0] is g2 for g2 in bodies) and not c[0].calls_re(r"rand::random$", cleanup=False)]
+        if cons:
+            host = cons[0][0]
     ok_id = False
     d2 = ""
     if cons and counter is not None:
         _, b, s, f = cons[0]
-        src = prov.of_operand(gen, list(f.values())[0])
+        src = prov.of_operand(host, list(f.values())[0])
+        if host is not gen and host.kind == "Closure":
+            src = prov.lift_closure_origins(host, src)
+        if host is not gen:
+            # what LocalKey::try_with returns is what the generator closure returns
+            from .core import Origin
+            src2 = set()
+            for o in src:
+                if o.kind == "call" and str(o.key).endswith("LocalKey::<T>::try_with"):
+                    for o2 in prov.of_local(gen, 0, tuple(o.path)):
+                        src2.add(Origin(o2.kind, o2.key, o2.path, o2.via + o.via))
+                else:
+                    src2.add(o)
+            src = src2
         hi = [o for o in src if ("Shl", 32) in [(v[1], v[2]) for v in o.via if v[0] == "binop"] and o.kind != "const"]
         lo = [o for o in src if o not in hi and any(v[0] == "call" and re.search(ADD, v[1]) for v in o.via) and o.kind != "const"]
         named_hi = [o for o in hi if o.path[-1:] and o.path[-1] in comps]
